@@ -1211,8 +1211,8 @@ def prop_shared(ch, ctx):
 
 
 PROPS = {
-    'key': (prop_key, 16000, 300000),
-    'names': (prop_names, 2000, 40000),
-    'history': (prop_history, 4000, 80000),
-    'shared': (prop_shared, 3000, 60000),
+    'key': (prop_key, 10000, 100000),
+    'names': (prop_names, 1500, 12000),
+    'history': (prop_history, 3200, 32000),
+    'shared': (prop_shared, 2400, 24000),
 }
